@@ -265,7 +265,7 @@ def run(tier):
         op = doc.ops[0]
         pl, bound = ex.payloads(op, full_cap=64, dev=2 if oi < n_rich else 1, dev_cap=800 if tier == "quick" else 3000)
         vs = [("payload", p) for _, _, p in pl]
-        for kind, rpath, bad, expect in corruptions(ex, op, pl[0][2]):
+        for kind, rpath, bad, expect in corruptions(ex, op, pl[0][2], enum_near_misses=True):
             vs.append(("corruption " + kind + " at " + rpath, bad))
         vars_ = [(v[0], gql.parse_type(v[1])) for v in op.vars]
 
@@ -350,7 +350,7 @@ def run(tier):
         "evaluations": n_eval, "distinct_nontrivial": len(distinct),
         "rule": "modules = %d operations x option sets (%s of normalization x response derives x variables derives x visibility "
                 "x custom-scalars module x serde path x extern enums); vectors per operation = conforming payloads (deviation "
-                "bound 2), every single-point corruption of the default payload, variables assignments (deviation bound 2, capped "
+                "bound 2), every single-point corruption of the default payload, at every enum leaf every string that differs from a schema value only by letter case or is its Rust-style spelling, variables assignments (deviation bound 2, capped "
                 "at 1500); each observation is compared with the same vector under the default option set; the whole comparison is "
                 "repeated under each fixed setting of the non-neutral options (default; skip-none + other-variant + deprecated=allow; "
                 "thorough also each alone). distinct = (operation, non-default option set, base setting)" % (len(ops), "the full product" if tier == "thorough" else "default + all single and pairwise deviations"),
